@@ -71,6 +71,20 @@ Templates == {T(<<p>>) : p \in TParts} \cup {T(<<p, q>>) : p \in TParts, q \in L
              \cup {T(<<p, q, r>>) : p \in Lits, q \in Interps \cup Dirs, r \in Lits}
              \cup {T(<<p, q>>) : p \in Lits, q \in Dirs}
 Tmpls == {t \in Templates : NoTwoLits(t.parts)}
+(* heredocs written with <<- : two or three lines at indentations 0 / 2 / 4, starting with text or with an interpolation, empty lines,
+   the closing marker at two indentations *)
+LineShapes == {<<L(<<"a">>)>>, <<I(V("s"), FALSE, FALSE)>>, <<I(V("x"), FALSE, FALSE), L(<<" ", "b">>)>>, <<L(<<"a">>), I(V("ns"), FALSE, FALSE)>>}
+Lines1 == {[ind |-> i, parts |-> ps] : i \in {0, 2, 4}, ps \in LineShapes} \cup {[ind |-> 0, parts |-> <<>>]}
+Flushes == {[k |-> "flush", lines |-> ls, close |-> c] : ls \in {<<a, b>> : a \in Lines1, b \in Lines1} \cup {<<a, b, d>> : a \in Lines1, b \in Lines1, d \in Lines1}, c \in {0, 2}}
+(* calls whose last argument expands: on their own, and evaluated several times (the body of a for expression, of a template for) *)
+CallX(f, as) == [k |-> "callx", fn |-> f, args |-> as]
+Pairs2 == Tu(<<Tu(<<S(<<"a">>), S(<<"b">>)>>), Tu(<<S(<<"c">>), S(<<"a">>)>>), Tu(<<S(<<"b">>), N(3)>>)>>)
+Singles2 == Tu(<<Tu(<<N(1)>>), Tu(<<N(7)>>), Tu(<<V("x")>>)>>)
+FlatX == {CallX(f, as) : f \in {"inc", "cat", "nofn"}, as \in {<<V("t")>>, <<V("ns")>>, <<V("n")>>, <<V("o")>>, <<V("u")>>, <<Tu(<<>>)>>, <<Tu(<<N(1)>>)>>, <<Tu(<<S(<<"a">>), S(<<"b">>)>>)>>,
+                                                                   <<S(<<"a">>), Tu(<<S(<<"b">>)>>)>>, <<S(<<"a">>), Tu(<<>>)>>, <<N(1), Tu(<<N(2)>>)>>, <<Tu(<<N(1), N(2), N(3)>>)>>}}
+ForsX == {ForT(kv, "v", c, b, None) : kv \in {"", "i"}, c \in {Pairs2, Singles2, V("t"), Tu(<<>>)}, b \in {CallX("cat", <<V("v")>>), CallX("inc", <<V("v")>>), CallX("cat", <<S(<<"k">>), V("v")>>)}}
+         \cup {ForO("i", "v", c, V("i"), b, None, FALSE) : c \in {Ob(<<"a", "b">>, <<Tu(<<N(1)>>), Tu(<<N(2)>>)>>)}, b \in {CallX("inc", <<V("v")>>)}}
+         \cup {T(<<Tfor("", "v", c, <<I(CallX(f, <<V("v")>>), FALSE, FALSE), L(<<" ">>)>>, FALSE)>>) : c \in {Pairs2, Singles2}, f \in {"inc", "cat"}}
 
 (* seeded random trees over all node kinds *)
 RECURSIVE RT(_)
@@ -115,10 +129,11 @@ TypedTrees(n) == {Nm(RandomElement(2..4)) : i \in 1..n} \cup {Bl(RandomElement(2
 Emit == PrintT(<<"BEHAVIOUR", ToJson(<<[op |-> "Eval", tree |-> tree, env |-> envn, vars |-> Envs[envn], want |-> (LET v == Eval(tree, Envs[envn]) IN IF IsErr(v) THEN "err" ELSE IF HasBad(v) THEN "unspec" ELSE v.t)]>>)>>)
 GInit(D) == tree \in D /\ envn \in EnvNames
 Next == UNCHANGED gvars
-FlatSpec == GInit(Flat) /\ [][Next]_gvars
+FlatSpec == GInit(Flat \cup FlatX) /\ [][Next]_gvars
 PrecSpec == GInit(Prec) /\ [][Next]_gvars
-ForSpec == GInit(Fors) /\ [][Next]_gvars
+ForSpec == GInit(Fors \cup ForsX) /\ [][Next]_gvars
 TmplSpec == GInit(Tmpls) /\ [][Next]_gvars
+FlushSpec == GInit(Flushes) /\ [][Next]_gvars
 RandSpec == GInit(RandTrees(800) \cup TypedTrees(500)) /\ [][Next]_gvars
 LawSpec == tree = N(0) /\ envn = "e1" /\ [][Next]_gvars
 (* the reference evaluator is total on everything generated, and obeys the laws any evaluator of this language must *)
